@@ -84,7 +84,11 @@ def run(tier):
                         tgt = c if (pi + 1) in (a, b) else 0
                         p.update({"p%d%dt" % (pi, vi): tgt, "p%d%dr" % (pi, vi): 0, "p%d%dk" % (pi, vi): 0, "p%d%dx" % (pi, vi): 0})
                 jobs.append(dict(rbase, harness="VerifC07Resolve", params=p))
-    return run_property("C07", tier, [Group("rmaven", jobs)],
+    lemmas = [j for j in jobs if j["harness"] != "VerifC07Resolve"]
+    whole = [j for j in jobs if j["harness"] == "VerifC07Resolve"]
+    # two overlays: a change to /repo that stops the unit-lemma harness from compiling (it names unexported helpers)
+    # leaves the whole-resolver harness, which uses the public API only, running
+    return run_property("C07", tier, [Group("rmaven", lemmas, files=["c07.go", "c07r.go", "c05shared.go"]), Group("rmaven", whole, files=["c07r.go", "c05shared.go"])],
                         required_covers=["requirements parsed", "match expected", "no candidate", "excluded", "not excluded", "dependency followed",
                                          "dependency skipped", "same artifact", "different artifact", "resolved", "a graph with several nodes", "nearest-wins checked", "a declaration excluded on its path"],
                         assumptions=["unit lemmas: findMatch, isExcluded/parseExclusions/mergeExclusions, imports, packageKeyForDependency",
